@@ -58,6 +58,8 @@ type retInfo struct {
 	at   Term
 	vals []Term
 	mem  map[string]Term
+	pos  token.Pos
+	locs map[int]*Loc
 }
 
 // frame: per-function-activation state (root function or inlined callee)
